@@ -81,7 +81,11 @@ def run(repo: Repo, chk: Check):
                       "replaced by the constant before any call sequence is emitted", floor=3)
     chk.rule("R12.c", "in the evaluation script the last binding of HASH is calc_hash, the identity decorators precede the "
                       "user code, and writer/reader of the result are json partners for the same call expression", floor=5)
+    chk.rule("R12.e", "a value that a constexpr call returned is shared by every call site with the same text (and by later compilations): no code on the "
+                      "compile path changes a container it received in place (shared with R11.c/d)", floor=20)
     chk.rule("R12.d", "the result cache is keyed by the complete script text (see R11.a)", floor=1)
+    from .c11 import r11cd
+    chk.shared({"R11.c": "R12.e", "R11.d": "R12.e"}, r11cd, repo, chk)
     cp = repo.mod("compile_pass")
     # ---------------------------------------------------------------- R12.a
     chkfn = cp.func("CompilerPassHandleConstexpr.check_constexpr_function")
@@ -221,6 +225,24 @@ def run(repo: Repo, chk: Check):
     ecfg = CFG(ev)
     erd = ReachingDefs(ecfg)
     wu = f"{u.path}:{ev.lineno} in eval_constexpr"
+    # the script is put together from literal text and the user's source; text that already contains user source must not be
+    # run through %-formatting or str.format again (a '%' or '{' in a constexpr function would be read as a directive)
+    for b in ast.walk(ev):
+        fmt_subject = None
+        if isinstance(b, ast.BinOp) and isinstance(b.op, ast.Mod) and isinstance(b.right, (ast.Dict, ast.Tuple)) and not isinstance(b.left, (ast.Constant, ast.JoinedStr)):
+            fmt_subject = b.left
+        if isinstance(b, ast.Call) and isinstance(b.func, ast.Attribute) and b.func.attr in ("format", "format_map") and not isinstance(b.func.value, (ast.Constant, ast.JoinedStr)) \
+                and "code" in norm(b.func.value).lower():
+            fmt_subject = b.func.value
+        if fmt_subject is None:
+            continue
+        # a module-level literal is fine (first stage); anything that was assembled at run time is not
+        lit = isinstance(fmt_subject, ast.Name) and fmt_subject.id in u.assigns and len(u.assigns[fmt_subject.id]) == 1 \
+            and isinstance(getattr(u.assigns[fmt_subject.id][0], "value", None), ast.Constant)
+        if not lit:
+            chk.bad("R12.c", "utils:eval_constexpr:the script is not formatted again after the user's source is in it",
+                    f"'{norm(b)[:70]}' applies text formatting to {norm(fmt_subject)}, a text assembled earlier that already contains the source of the constexpr functions: "
+                    f"a '%' in any of them (modulo, '%s' formatting) is read as a conversion, the compilation fails or the script changes", None, wu)
     tmpl = None
     for st in ast.walk(ev):
         if isinstance(st, ast.Assign) and isinstance(st.value, ast.JoinedStr) and "import" in norm(st.value) and any(norm(t) == "code" for t in st.targets):
